@@ -47,3 +47,5 @@ def run(check):
         # ... and what f()'s function returns for a call goes through the translator's call translation (shared with C12.R2)
         rule_call_table(c, 'C20.R7')
     check.run_rule('C20.R7', r7)
+    from ..rules_support import rule_read_sig_insertion_index
+    check.run_rule('C20.R8', lambda c: rule_read_sig_insertion_index(c, 'C20.R8'))
